@@ -27,7 +27,7 @@ warnings.filterwarnings("ignore")
 
 S = Suite(
     "C01",
-    what="native refinement study (n -> 4n [-> 16n]) of the per-mode transfer function of "
+    what="native refinement study (n -> 4n -> 16n) of the per-mode transfer function of "
          "steady_state_transport_solver against a DOP853 Riccati integration of the BVP",
     bound="profile families {log,power-law wind (oblique, optional veer)} x {linear, power-law, "
           "Businger-Dyer K; anisotropic Kx!=Ky!=Kz} on uniform and geometric grids, n=16 "
